@@ -26,10 +26,11 @@ PID = "C19"
 FAULT_KINDS = ("eio", "enomem", "enoent", "short", "bitflip")
 EDIT_HOWS = ("zero", "scale", "add", "nan", "reverse", "flip", "negate", "sort")
 TF_CLASSES = ("linear", "exp", "power")
-TF_METHODS = ("transform", "inverse", "deriv", "deriv2", "deriv3", "deriv_inverse", "deriv2_inverse", "deriv3_inverse", "grid")
+TF_METHODS = ("transform", "inverse", "deriv", "deriv2", "deriv3", "deriv_inverse", "deriv2_inverse", "deriv3_inverse", "grid", "grid", "grid_bad", "transform_zero")
 ELEMENTS = ["H", "C", "N", "O", "Cl", 1, 6, 7, 8, 17, "h", " c ", "cl", "He", 2, "Xx", 0, 119]
 PRESETS = ["coarse", "medium", "fine", "sg_0", "sg_1", "g1", "g2"]
-TRACE_FILES = ("grid/angular.py", "grid/coulomb.py", "grid/atomgrid.py")
+TRACE_FILES = ("grid/angular.py", "grid/coulomb.py", "grid/atomgrid.py", "grid/molgrid.py", "grid/basegrid.py", "grid/rtransform.py",
+               "grid/becke.py", "grid/onedgrid.py", "grid/hirshfeld.py")
 HOT_FUNCS = ("_load_precomputed_angular_grid", "load_atomic_gaussian_params", "__init__")
 
 
@@ -378,7 +379,9 @@ def _build(ctx, recipe, live=False):
             args, kw = (rg, None), {"sizes": seq(degspec[1]), "center": c, "rotate": rot, "method": method}
         # object-identity reuse as a simulated event: if the caller dropped an atomic grid just before, the new one is
         # steered onto the released address (see simkit/addr.py)
-        held = ctx.released_ids.pop("atom", None) if (live and getattr(ctx, "steer", False)) else None
+        # (never under the thread scheduler: the number of constructions the steering needs is address-dependent and
+        # would leak into the schedule)
+        held = ctx.released_ids.pop("atom", None) if (live and getattr(ctx, "steer", False) and ctx.sched is None) else None
         target = None
         if held is not None:
             # the dropped grid was kept alive by the simulator until this very moment
@@ -959,6 +962,24 @@ def _op_tf_call(ctx, owner, op):
         ctx.violate("tf-b-changed", "tf_call", m["cls"], f"{m['cls']} scale changed between calls: {m['b']} -> {b_before}")
         m["b"] = b_before
     is_grid = method == "grid"
+    if method in ("grid_bad", "transform_zero"):
+        # a first grid the transform must reject (wrong domain / all-zero array): whatever it does, it must not
+        # fix the remembered scale - "the first grid it sees" is the first grid it accepts
+        from grid.onedgrid import GaussLegendre
+
+        if method == "grid_bad":
+            oc = _outcome(lambda: tf.transform_1d_grid(GaussLegendre(max(2, len(x)))))
+        else:
+            oc = _outcome(lambda: tf.transform(np.zeros(max(1, len(x)))))
+        b_after = tf.b
+        if oc[0] == "raise" and b_after != b_before and not (b_before is None and b_after is None):
+            ctx.violate("tf-rejected-grid-fixed-scale", "tf_call", f"{m['cls']}:{method}", f"{m['cls']}: a grid rejected with {type(oc[1]).__name__} changed the remembered scale {b_before} -> {b_after}")
+            m["b"] = b_after
+        elif oc[0] == "ok" and m["b"] is None and b_after is not None:
+            m["b"] = b_after  # accepted after all (not this property's business); follow the object
+        ctx.probes.hit("tf-rejected-grid:" + method)
+        ctx.log.add(ctx.step, "tf_call", method, oc[0], b_after)
+        return
     if is_grid:
         n = max(2, len(x))
         og = UniformInteger(n)
@@ -1187,7 +1208,7 @@ class CacheHistoryEngine:
         "shipped data files under /repo/src/grid/data are the reference ('those of the shipped data')",
         "degree/size tables of grid.angular are taken as constants (C12 is not claimed)",
         "BeckeWeights and utils.convert_cart_to_sph are used as pure functions inside the model",
-        "thread pre-emption only at Python line boundaries inside grid/angular.py, grid/coulomb.py, grid/atomgrid.py",
+        "thread pre-emption only at Python line boundaries inside grid/{angular,coulomb,atomgrid,molgrid,basegrid,rtransform,becke,onedgrid,hirshfeld}.py",
         "a clean batch is sampling evidence, not proof",
     ]
 
@@ -1223,8 +1244,8 @@ class CacheHistoryEngine:
                 for t in spec["threads"]:
                     t.insert(0, ["ang", m0, "degree", d0, True])
             spec["sched_seed"] = derive_seed(seed, "sched")
-            spec["p_switch"] = rng.choice([0.005, 0.02, 0.08])
-            spec["p_hot"] = rng.choice([0.1, 0.3, 0.6])
+            spec["p_switch"] = rng.choice([0.0, 0.002, 0.01, 0.05])
+            spec["p_hot"] = rng.choice([0.0, 0.0, 0.02, 0.1])  # most of the hot-region pre-emption comes from the targeted breaks (simkit/sched.py)
             spec["prelude"] = [_gen_op(rng, cfg) for _ in range(rng.randint(0, 3))]
         else:
             spec["ops"] = [_gen_op(rng, cfg) for _ in range(rng.randint(4, 40))]
@@ -1297,6 +1318,7 @@ class CacheHistoryEngine:
 
     def _execute_threads(self, ctx, spec):
         _run_ops(ctx, "main", spec.get("prelude", []))
+        ctx.released_ids.clear()
         threads = spec["threads"]
         sc = simsched.Scheduler(
             len(threads), TRACE_FILES, sched_seed=spec.get("sched_seed"), explicit=spec.get("schedule"),
